@@ -11,7 +11,7 @@ From Alator Require Import Model.Num Model.Quirks Model.Cost Model.Exchange Mode
 Import ListNotations.
 Local Open Scope list_scope."""
 
-which = sys.argv[1:] or ["C06", "C09", "C10", "C16"]
+which = sys.argv[1:] or ["C06", "C09", "C10", "C16", "C04"]
 
 if "C06" in which:
     gen("C06sys", "C06 END TO END over the composition broker + eager client + Uist server + Uist exchange "
@@ -64,4 +64,25 @@ if "C16" in which:
         ("c16p_dates", "strategy_perf_dates", "For ANY prices: the report's dates are d_2 … d_N, d_N — one per update, non-decreasing for a dataset with increasing dates.", True),
         ("c16p_one_date_panics", "strategy_perf_one_date_panics", "A run over a one-date dataset records one snapshot and perf() panics (fewer than two snapshots: modelled, excluded by C14's premise).", True),
         ("c16p_example", "strategy_perf_observed_at_floats", "Non-vacuity, kernel-evaluated at the IEEE instance (libm values supplied as a table): the 3-date constant-price run of c16_end_to_end_example reports values 1000, 1000, 1000, returns 0, 0 and zero statistics.", True),
+    ])
+
+IMPF4 = """From Coq Require Import ZArith NArith List Bool String Floats.
+From Flocq Require Import IEEE754.BinarySingleNaN IEEE754.PrimFloat.
+From Alator Require Import Model.Num Model.Quirks Model.Cost Model.Exchange Model.Uist Model.Broker
+  Proofs.BrokerLedgerProofs Proofs.FloatExact Proofs.FloatCash.
+Import ListNotations."""
+if "C04" in which:
+    gen("C04float", "C04 AT THE IEEE binary64 INSTANCE for whole-unit amounts — no rounding anywhere. Statements only. "
+        "`int_float x n`: the binary64 value x is finite and equals the integer n (Flocq's reading of Coq's primitive "
+        "float). `reads` / `integral` tie every amount of a history (deposits, withdrawals, the value of every booked "
+        "trade) to its integer; `zledger` is the integer ledger read off the events the float run returned, "
+        "`zledger_replay` the one that replays the decisions in Z (proved equal); `zvolume` the total of all |amounts|. "
+        "Depends on the specification axioms the standard library declares for its primitive floats / 63-bit integers "
+        "and on the classical real-number axioms (through Flocq).", IMPF4, [
+        ("c04f_step", "cash_step_clean", "One operation of the model instance that is compared bit-for-bit with the code: cash moves by exactly the integer amount (deposit accepted, withdrawal done, trades booked: minus every buy, plus every sell), the event is the one the INTEGER comparison decides (float comparisons of integer-valued floats are exact), nothing else moves cash.", True),
+        ("c04f_history", "float_cash_ledger_of_volume", "Over ALL histories, one premise on magnitudes (|initial cash| + total of all |amounts| below 2^53): the float cash IS the initial cash plus the integer ledger.", True),
+        ("c04f_replay", "float_cash_ledger_replay", "… and that ledger is the one obtained by replaying the accept / refuse decisions in Z.", True),
+        ("c04f_headline", "float_cash_from_zero", "HEADLINE, in the property's words, from cash 0: float cash = accepted deposits - successful withdrawals - values of buys + values of sells booked by the checks, each once — as an EQUALITY OF FLOATS (bit for bit; cash never becomes -0).", True),
+        ("c04f_as_is", "cash_history_exact_of_volume", "The same for ANY quirk valuation, in particular the code as it is (recorded finding q_liq_fail_debit): one extra integer term, the forced debit of a failed liquidation request that does not exceed cash.", True),
+        ("c04f_example", "exc_headline_instance", "Non-vacuity, kernel-evaluated: deposit 1000, refused withdrawal 2000, withdrawal 250, a check booking a buy worth 300 and a sell worth 120: cash = 570.", True),
     ])
